@@ -422,9 +422,10 @@ def play_faulty(ctx, case, res, scripts=None):
             feats_now, rel_now = new_feats, new_rel
             changing += 1
         else:
-            if tainted and judged:
-                judged = False
-                res.count("reopen_directly_after_partly_committed_failed_update(unjudged from there)")
+            if tainted:
+                # the rows a failed update left behind were committed; the keys it handed out for them must not be handed
+                # out again after reopening either ("never equal a key handed out earlier", "across ... reopenings")
+                res.count("reopen_directly_after_partly_committed_failed_update")
             rw.reopen()
     rw.finish()
     if scripts is not None:
